@@ -101,16 +101,21 @@ fn user_vs_extended(su: &Spec, ss: &Spec) {
         }
     }
     assert!(user_seen, "the user word is not a candidate");
-    // the system word (id 0) remains available
-    let mut a_seen = false;
+    // system words remain available: the system word (id 0) is a candidate with the user
+    // lexicon exactly where it is one with the extended system lexicon (it may be unreachable in both)
+    let mut in_u = 0;
+    let mut in_s = 0;
     for b in 1..=2 {
         for j in 0..4 {
             if j < eu[b].len() && eu[b][j].lex_type == LexType::System && eu[b][j].word_id == 0 {
-                a_seen = true;
+                in_u += 1;
+            }
+            if j < es2[b].len() && es2[b][j].lex_type == LexType::System && es2[b][j].word_id == 0 {
+                in_s += 1;
             }
         }
     }
-    assert!(a_seen, "a system word disappeared");
+    assert!(in_u == in_s, "a system word is offered differently with the user lexicon");
     kani::cover!(wu.num_tokens() == 1);
     core::mem::forget(wu);
     core::mem::forget(ws);
